@@ -191,7 +191,11 @@ def run(case) -> dict:
     probes: t.Dict[str, int] = {}
     observed = []
     with world.installed(ctx_factory=drive.stub_ctx_factory(CFG, record)):
-        if config == "seed-pubonly":
+        if config == "seed-dcahead":
+            # an authorised caller and a DC whose clock is a little ahead: the first call's answer is for the DC's (next) interval
+            dc = refdc.RefDC(world, [RK], host=offline.DC, caller_sids={SID}, acceptor_factory=drive.stub_acceptor_factory(CFG), skew_ns=(case[6] if len(case) > 6 else 2) * 1_000_000_000)
+            probes["member_account_dc_ahead"] = 1
+        elif config == "seed-pubonly":
             # an account that may only encrypt (the DC hands it the group PUBLIC key) and a DC whose clock is a little ahead
             dc = refdc.RefDC(world, [RK], host=offline.DC, caller_sids=set(), acceptor_factory=drive.stub_acceptor_factory(CFG), skew_ns=(case[6] if len(case) > 6 else 2) * 1_000_000_000)
             probes["public_key_only_account_dc_ahead"] = 1
@@ -267,12 +271,12 @@ class C09(common.Check):
             "Enumerated: every L0 boundary 1970..2200 (L0 315..513) x every tick offset -64..+64; L1 and L2 boundaries in 40 L0 epochs x "
             "offsets; sub-tick offsets 0/1/50/99 ns; PRNG instants across 1970..2200; clock jumps backwards/forwards between calls sharing "
             "a cache; the same instants in fresh interpreters whose process timezone is not UTC; several async protects started together on one cache while the ticking clock passes a boundary (each blob must name an interval of its own call's span); a protect that follows, on a cache without root key, an unprotect answered by a misbehaving DC with an envelope for another L0 interval; 2..3 caller threads protecting on one cache at the same time under the same oracle, pre-empted at PRNG-chosen line events; a clock that advances 1..1000 ticks per reading so that one call straddles an L2/L1/L0 boundary (any interval containing an "
-            "instant between its first and last reading is accepted); an account that only receives the public key from a DC whose clock is 1..3 s ahead, calling within the last 1.5 s before a boundary; 'seed' cases obtain an envelope from the reference DC late in the epoch and protect after the clock jumped back. "
+            "instant between its first and last reading is accepted); an account (authorised, or one that only receives the public key) served by a DC whose clock is 1..3 s ahead, calling within the last 1.5 s before a boundary; 'seed' cases obtain an envelope from the reference DC late in the epoch and protect after the clock jumped back. "
             "Non-trivial = instant within 64 ticks of an interval boundary or a history with a clock jump; distinct = distinct tuple.")
     components = {"client": "real (ncrypt_protect_secret / async, KeyCache, _get_protection_gke_from_cache)", "clock": "simulated (dpapi_ng._client.time seam)",
                   "DC": "model (RefDC) in the 'seed' configuration", "parser of the emitted blob": "model (ref.cms)"}
     assumptions = ["interval formula in exact integer arithmetic on FILETIME ticks (ref.gkdi.interval_of_filetime)"]
-    required_fired = ("from_cache", "from_cached_seed", "clk_jump_back", "clock_ticks_per_read", "uncovered_offline_raises", "non_utc_timezone", "overlapping_async_protects", "thread_protects_one_cache", "thread_overlap", "thread_call_entirely_on_one_side", "byzantine_reply_then_protect", "public_key_only_account_dc_ahead")
+    required_fired = ("from_cache", "from_cached_seed", "clk_jump_back", "clock_ticks_per_read", "uncovered_offline_raises", "non_utc_timezone", "overlapping_async_protects", "thread_protects_one_cache", "thread_overlap", "thread_call_entirely_on_one_side", "byzantine_reply_then_protect", "public_key_only_account_dc_ahead", "member_account_dc_ahead")
 
     def exhaustive(self, tier):
         return True
@@ -352,6 +356,8 @@ class C09(common.Check):
             bnd = (l0 * 1024 + rng.randrange(1, 1024)) * B
             back = rng.choice((1, 5_000_000, 9_999_999, 15_000_000))  # ticks before the boundary: 100 ns .. 1.5 s
             out.append(["seed-pubonly", rng.choice(("sync", "async")), bnd - back + rng.choice((0, 1, 1000)), 0, [bnd - back], 0, rng.choice((1, 2, 3))])
+            # (the same with an authorised caller: the first answer is a seed for the DC's interval, later calls are served from it)
+            out.append(["seed-dcahead", rng.choice(("sync", "async")), bnd - back + rng.choice((0, 1, 1000)), 0, [bnd - back] * rng.randint(1, 2), 0, rng.choice((1, 2, 3))])
         # a misplaced reply to an earlier unprotect on a cache without root key, then a protect at the same instant
         for i in range(240 if tier == "quick" else 8000):
             l0 = rng.randrange(330, 500)
